@@ -220,8 +220,25 @@ fn exec(w: &World, line: &str, target: &NetworkAddress) -> String {
 }
 
 /// the property stated directly with independently computed distances
-fn oracle(line: &str, r: &str, out: &mut Out) {
+///
+/// `strict`: also raise the clause "the requested number, or too few reported" where it is known to be false of the code
+/// (known finding K-c-count-guard; on generated runs those cases are only counted, see `requested_count_or_reported_partial`)
+fn oracle(line: &str, r: &str, out: &mut Out, strict: bool) {
     let ws: Vec<&str> = line.split_whitespace().collect();
+    // the clause as worded: the requested number of peers, or an error when fewer are known
+    let mut worded = |op: &str, known: usize, n: usize, can_report: bool, out: &mut Out| {
+        let ok = if r.starts_with("err") { known < n } else { r.split_whitespace().count() - 1 == n };
+        if ok {
+            return;
+        }
+        // hypothesis of the _partial theorems: the guard (CLOSE_GROUP_SIZE) is the right one for this request
+        let adequate = if can_report { n >= 5 && !(known >= 5 && known < n) } else { n <= known };
+        if adequate || strict {
+            out.oracle_fail("requested-count-or-reported", line, &format!("{known} peers known, {n} requested, got `{r}`"));
+        } else {
+            out.count(&format!("{op}:count-guard-gap"));
+        }
+    };
     if r == "panic" {
         out.oracle_fail("no-panic", line, "panicked");
         return;
@@ -264,12 +281,15 @@ fn oracle(line: &str, r: &str, out: &mut Out) {
         ["sort", n, rest @ ..] => {
             let d = dists(rest);
             let n: usize = n.parse().expect("n");
-            if rest.len() < 5 {
-                if r != "err notenough" {
+            worded("sort", rest.len(), n, true, out);
+            if r.starts_with("err") {
+                // an error with at least CLOSE_GROUP_SIZE peers known is never right, whatever the request
+                if rest.len() >= 5 {
                     out.oracle_fail("too-few-reported", line, &format!("{} peers known but got {r}", rest.len()));
                 }
                 return;
             }
+            // an answer is always the nearest ones, ascending
             let mut all = d.clone();
             all.sort_by(|a, b| a.0.cmp(&b.0));
             let expect: Vec<String> = all.iter().take(n).map(|(_, i)| i.clone()).collect();
@@ -290,6 +310,7 @@ fn oracle(line: &str, r: &str, out: &mut Out) {
             if *c != "0" {
                 d.retain(|(_, i)| i != me);
             }
+            worded("closegroup", d.len(), 7, true, out);
             if d.len() < 5 {
                 if r != "err notenough" {
                     out.oracle_fail("close-group-too-few-reported", line, &format!("{} other peers known but got {r}", d.len()));
@@ -319,6 +340,9 @@ fn oracle(line: &str, r: &str, out: &mut Out) {
         }
         ["closest", n, range, rest @ ..] => {
             let d = dists(rest);
+            if *range == "-" && *n != "-" {
+                worded("closest", rest.len(), n.parse().expect("n"), false, out);
+            }
             let expect: Vec<String> = if *range != "-" {
                 let range = BigUint::parse_bytes(range.as_bytes(), 10).expect("r");
                 rest.iter().filter_map(|t| { let (i, x) = t.split_once(':').expect("p"); (BigUint::parse_bytes(x.as_bytes(), 10).expect("d") <= range).then(|| i.to_string()) }).collect()
@@ -370,9 +394,10 @@ fn main() {
     }
     // every peer-list op of one run refers to one target address (chosen from the seed): target index on a "target" line
     let mut target = w.addrs[0].1.clone();
+    let strict = args.replay.is_some();
     let run = |w: &World, line: &str, target: &NetworkAddress, out: &mut Out| {
         let r = catch_unwind(AssertUnwindSafe(|| exec(w, line, target))).unwrap_or_else(|_| "panic".into());
-        oracle(line, &r, out);
+        oracle(line, &r, out, strict);
         let op = line.split_whitespace().next().unwrap_or("");
         out.count(&format!("{op}:{}", if r.starts_with("err") { "err" } else { "ok" }));
         out.nontrivial_case(line);
@@ -395,6 +420,26 @@ fn main() {
         return;
     }
     out.line(format!("seed {seed}"), "bad-op");
+    // corpus: the count guard of sort_peers_by_key / the missing one of calculate_get_closest_peers (K-c-count-guard):
+    // 5 known / 7 requested, 2 known / 2 requested, the client's selection with 5 others, 2 known / 5 requested
+    {
+        target = w.addrs[0].1.clone();
+        out.line("target 0".to_string(), "bad-op");
+        let bind = |w: &World, idx: &[usize], target: &NetworkAddress| {
+            let b: Vec<String> = idx.iter().map(|i| format!("{i}={}", hex(&NetworkAddress::from_peer(w.peers[*i]).as_bytes()))).collect();
+            format!("bind {} {}", hex(&target.as_bytes()), b.join(" "))
+        };
+        let five = [0usize, 1, 2, 3, 4];
+        let six = [0usize, 1, 2, 3, 4, 5];
+        let two = [0usize, 1];
+        run(&w, &bind(&w, &five, &target), &target, &mut out);
+        run(&w, &format!("sort 7 {}", peers_line(&w, &target, &five)), &target, &mut out);
+        run(&w, &bind(&w, &two, &target), &target, &mut out);
+        run(&w, &format!("sort 2 {}", peers_line(&w, &target, &two)), &target, &mut out);
+        run(&w, &format!("closest 5 - {}", peers_line(&w, &target, &two)), &target, &mut out);
+        run(&w, &bind(&w, &six, &target), &target, &mut out);
+        run(&w, &format!("closegroup 1 0 {}", peers_line(&w, &target, &six)), &target, &mut out);
+    }
     for _ in 0..args.n {
         match rng.below(10) {
             0 => {
